@@ -176,12 +176,18 @@ def make_case(rng, quick, size=None, wide=None, slash_twin=None):
     r_ = rng.random()
     wide = (r_ < 0.08) if wide is None else wide      # many namespaces: two-digit local indices, long namespace tables
     # size: a document set with that many nodes (the number of distinct ids crosses the 8-bit boundaries)
-    if size: g = nsgen.gen_graph(rng, n_ns=2, n_nodes=size, hostile=False, with_values=False, value_gen=value_gen)
+    if size and size != "split": g = nsgen.gen_graph(rng, n_ns=2, n_nodes=size, hostile=False, with_values=False, value_gen=value_gen)
     elif slash_twin: g = nsgen.gen_graph(rng, n_ns=rng.randint(2, 3), n_nodes=rng.randint(5, 8), value_gen=value_gen, slash_twin=True)
     else: g = nsgen.gen_graph(rng, n_ns=rng.randint(10, 13) if wide else rng.randint(1, 3), n_nodes=rng.randint(12, 16) if wide else rng.randint(1, 7 if quick else 10), value_gen=value_gen)
+    if size == "split":
+        # one namespace spread over two documents, with a reference between its first and its last node declared in BOTH documents
+        g = nsgen.gen_graph(rng, n_ns=1, n_nodes=6, value_gen=value_gen)
+        own = [k for k in g.order if k[0] == g.uris[0]]
+        if len(own) >= 2:
+            g.refs.append((own[0], own[-1], (nsgen.UA, "i", "47"))); g.force_both = [len(g.refs) - 1]
     # one case in five: companion specifications parsed on their own - everything of the base namespace they name (types, parents, reference types) is undefined
     g.with_base = rng.random() >= 0.2
-    g.split = rng.random() < 0.35
+    g.split = "force" if size == "split" else rng.random() < 0.35
     ds = nsgen.serialise(g, rng, value_xml=value_xml, with_base=g.with_base, split=g.split)
     return g, ds
 
@@ -288,7 +294,7 @@ def run(ctx, prop):
     try:
         for ci in range(n_cases):
             # the third and fourth case are medium-sized: 128..255 and 256+ distinct NodeIds in one parse (ids beyond the range of the narrow integer types)
-            g, ds = make_case(rng, ctx.quick(), size={2: rng.randint(120, 200), 3: rng.randint(260, 300)}.get(ci), wide=True if ci == 4 else None, slash_twin=True if ci == 5 else None)
+            g, ds = make_case(rng, ctx.quick(), size={2: rng.randint(120, 200), 3: rng.randint(260, 300), 6: "split"}.get(ci), wide=True if ci == 4 else None, slash_twin=True if ci == 5 else None)
             files, lay = render_set(ds, rng)
             origs = originals_of(g, ds)
             vts = [n["value"] for _, d, _ in ds for n in d["nodes"] if n.get("value")]
